@@ -98,6 +98,11 @@ Quiescent == /\ l \in 1..N /\ E.e = "quiescent" /\ Open(pend) = {}
              /\ AbsFinal(abs)
              /\ l' = l + 1 /\ UNCHANGED <<abs, pend, ex>>
 
+\* an operation that raised an exception: it must not have had an abstract effect
+Abort == /\ l \in 1..N /\ E.e = "abort" /\ pend[E.t].st = "called"
+         /\ pend' = [pend EXCEPT ![E.t] = Idle]
+         /\ l' = l + 1 /\ UNCHANGED <<abs, ex>>
+
 \* monitor events emitted inside operations
 Ev == /\ l \in 1..N /\ E.e = "ev"
       /\ \E s \in AbsEv(abs, E.t, E.op, E.a, E.b) : abs' = s
@@ -109,7 +114,7 @@ Skip == /\ l \in 1..N /\ E.e \in {"choice", "note"}
 
 \* "outcome" (crash, hang, deadlock, steplimit), "uaf", "dfree" records have no action: the trace is rejected there.
 
-Next == Call \/ Ret \/ Cfg \/ Ev \/ Accept \/ Quiescent \/ Skip \/ \E t \in Threads : Lin(t)
+Next == Call \/ Ret \/ Abort \/ Cfg \/ Ev \/ Accept \/ Quiescent \/ Skip \/ \E t \in Threads : Lin(t)
 Spec == Init /\ [][Next]_vars
 
 \* furthest record reached (needs -workers 1), reported for diagnosis of a rejected execution
